@@ -1,7 +1,7 @@
 (* C13 - harmonic projection takes the target's harmony and keeps the source's music.
    Statements only; proofs in Proofs/ProjectProofs.v (plain projection; integer ticks). *)
 From ML Require Import Model.Types gen.Tables Model.Pitch Model.Rel Model.Render Model.Slice Model.Project.
-From ML Require Import Proofs.RenderProofs Proofs.SliceProofs Proofs.ProjectProofs.
+From ML Require Import Proofs.RenderProofs Proofs.SliceProofs Proofs.ProjectProofs Proofs.ProjectSymbols.
 Open Scope Z_scope.
 Open Scope list_scope.
 
@@ -27,6 +27,13 @@ Proof.
     apply Z.add_nonneg_nonneg; [apply Z.lt_le_incl; exact P|assumption]. }
   rewrite Z.add_0_l, Z.sub_0_r. apply Z.max_r. apply Z.min_glb; assumption.
 Qed.
+
+(* the projection keeps every written note symbol: each note of the result is a note of the source with its notation (kind,
+   direction, value, octave, mode, accidental) and dynamics - possibly shortened -, or a continuation (of a note cut at a target
+   chord boundary), or a rest (a part absent from a source chord).  No hypothesis on the scores. *)
+Theorem C13_symbols : forall s g r, project_plain s g false = Some r ->
+  Forall (from_source (notes_of_score s)) (notes_of_score r).
+Proof. intros s g r. exact (project_symbols s g 0 r). Qed.
 
 Example C13_ex :
   let nt k v du := mkTN (mkP k Abs v 0 None None) du 66 in
